@@ -34,14 +34,14 @@ TPkgOf    == [ f \in TFiles |-> Trace[CHOOSE i \in FileIdx : Trace[i].file = f].
 TNoTokens == [ x \in TCheckers \X TFiles |-> {} ]
 TNoDiag   == [ x \in TCheckers \X TFiles |-> <<>> ]     \* unused: the reference travels with each CheckEnd
 
-VARIABLES ctxPkg, ctxFile, infoId, captured, tree, buf, scratch, cpc, ret, last, steps, l
+VARIABLES ctxPkg, ctxFile, ctxImports, infoId, captured, tree, buf, scratch, cpc, ret, last, steps, l
 
 L == INSTANCE Lifecycle WITH Checkers <- TCheckers, Pkgs <- TPkgs, Files <- TFiles, PkgOf <- TPkgOf,
-       Diag <- TNoDiag, Residue <- TNoTokens, Sensitive <- TNoTokens, Rewriters <- {},
+       Diag <- TNoDiag, Residue <- TNoTokens, Sensitive <- TNoTokens, Rewriters <- {}, HasImports <- [f \in TFiles |-> TRUE], RebuildImports <- TRUE,
        ResetBuf <- TRUE, ResetScratch <- TRUE, InPlaceInfo <- TRUE, CopiesFirst <- TRUE, MaxHist <- 0
 
-lvars == <<ctxPkg, ctxFile, infoId, captured, tree, buf, scratch, cpc, ret, last, steps>>
-tvars == <<ctxPkg, ctxFile, infoId, captured, tree, buf, scratch, cpc, ret, last, steps, l>>
+lvars == <<ctxPkg, ctxFile, ctxImports, infoId, captured, tree, buf, scratch, cpc, ret, last, steps>>
+tvars == <<ctxPkg, ctxFile, ctxImports, infoId, captured, tree, buf, scratch, cpc, ret, last, steps, l>>
 
 IsEv(e) == l <= Len(Trace) /\ Trace[l].ev = e /\ l' = l + 1
 T == Trace[l]
@@ -50,7 +50,7 @@ TInit == L!Init /\ l = 1
 
 \* a new long-lived set: everything back to the initial state
 TReset == /\ IsEv("Reset")
-          /\ ctxPkg' = L!None /\ ctxFile' = L!None /\ infoId' = 0
+          /\ ctxPkg' = L!None /\ ctxFile' = L!None /\ ctxImports' = L!None /\ infoId' = 0
           /\ captured' = [c \in TCheckers |-> 0]
           /\ tree' = [f \in TFiles |-> "orig"]
           /\ buf' = [c \in TCheckers |-> <<>>] /\ scratch' = [c \in TCheckers |-> {}]
@@ -59,7 +59,9 @@ TReset == /\ IsEv("Reset")
 
 TSetPkg  == /\ IsEv("SetPkg") /\ L!SetPackageInfo(T.pkg)
             /\ infoId' = IF T.infoSame THEN infoId ELSE infoId + 1      \* logged: identity of ctx.TypesInfo
-TSetFile == IsEv("SetFile") /\ T.pkg = ctxPkg /\ L!SetFileInfo(T.file)
+\* ctxOK: the import tables of the context (PkgObjects, PkgRenames) are exactly those of this file
+TSetFile == /\ IsEv("SetFile") /\ T.pkg = ctxPkg /\ L!SetFileInfo(T.file)
+            /\ ctxImports' = IF T.ctxOK THEN T.file ELSE "stale"
 TBegin   == IsEv("CheckBegin") /\ L!CheckBegin(T.c) /\ Len(buf'[T.c]) = T.bufLen
 \* the walk has finished (hook before Check returns): the buffer content is logged, and the reference result
 \* of a fresh instance travels with the event
@@ -68,6 +70,7 @@ TWalked  == /\ IsEv("Walked") /\ T.file = ctxFile
             /\ buf'[T.c] = <<T.got>>                                     \* C03: logged buffer = what the module computes
             /\ T.warnOK                                                  \* C07 obligations of every warning
             /\ T.fpSame                                                  \* C05 frame condition (tree' = tree in WalkRef)
+            /\ T.skipClear                                               \* the one-shot SkipChilds flag of the walker is consumed
 TEnd     == /\ IsEv("CheckEnd") /\ L!CheckEnd(T.c)
             /\ ret'[T.c] = <<T.ret>>                                     \* what Check returned is the buffer
 
@@ -78,6 +81,7 @@ TSpec == TInit /\ [][TNext]_tvars
 BufEmptyAtBegin == L!BufEmptyAtBegin
 FileInPkg == L!FileInPkg
 InfoIdentityStable == L!InfoIdentityStable
+CtxImportsCurrent == L!CtxImportsCurrent
 InputsReadOnly == L!InputsReadOnly
 
 \* acceptance: every line consumed (one state per line plus the initial state; the trace spec is deterministic)
